@@ -788,6 +788,19 @@ func execBSeq(t []string, o *vu.Out) string {
 	// C36 on the implementation: the bytes of an accepted call sequence are the bytes of
 	// Message.Pack of the message it describes (compression enabled before the first record),
 	// and they unpack to that message with or without compression.
+	if last != nil && !clean && wellFormed(ref) {
+		// A failed call must be a no-op: the finished message still is the message that the
+		// successful calls describe. (Known finding builder-stale-map: the compression map keeps the
+		// entries of the failed record.)
+		var m2 dm.Message
+		if err := m2.Unpack(last); err != nil {
+			o.Fail("builder-stale-map", fmt.Sprintf("Builder used after a failed call returns a message that does not unpack: %v (%x)", err, last))
+		} else if _, perr := ref.Pack(); perr == nil {
+			if a, b := dumpMessageOpt(ref, false), dumpMessageOpt(&m2, false); a != b {
+				o.Fail("builder-stale-map", fmt.Sprintf("Builder used after a failed call returns a different message: want [%s] got [%s]", a, b))
+			}
+		}
+	}
 	if last != nil && clean && wellFormed(ref) {
 		o.Stat("oracle:builder-clean-finish")
 		refPacked, perr := ref.Pack() // also fills in Type/Length of ref
@@ -909,7 +922,7 @@ func execWalk(b []byte, script string, o *vu.Out) string {
 		for {
 			var err error
 			switch step() {
-			case 'p', 'h':
+			case 'p', 'h', 'w':
 				var q dm.Question
 				if q, err = p.Question(); err == nil {
 					fmt.Fprintf(&sb, " Q %s %d %d", hexName(q.Name), q.Type, q.Class)
@@ -946,6 +959,18 @@ func execWalk(b []byte, script string, o *vu.Out) string {
 				case 'h':
 					var h dm.ResourceHeader
 					if h, err = a.header(); err == nil {
+						var body dm.ResourceBody
+						if body, err = typedBody(&p, h); err == nil {
+							sb.WriteString(" R")
+							dumpResources2(&sb, dm.Resource{Header: h, Body: body})
+						}
+					}
+				case 'w': // XHeader(), header calls of the other sections (they fail), typed XResource()
+					var h dm.ResourceHeader
+					if h, err = a.header(); err == nil {
+						for _, f := range []func() (dm.ResourceHeader, error){p.AnswerHeader, p.AuthorityHeader, p.AdditionalHeader} {
+							f() // own section: re-parses the header; other sections: fail, must change nothing
+						}
 						var body dm.ResourceBody
 						if body, err = typedBody(&p, h); err == nil {
 							sb.WriteString(" R")
@@ -1050,6 +1075,38 @@ func oracleSkipParse(o *vu.Out, msg []byte) {
 					o.Fail("", fmt.Sprintf("XHeader+SkipX succeeds (offset %d) but SkipX fails (%v) on the same record of %x", ho, es, msg))
 				} else if so := dm.VerifParserOff(&ps); so != ho {
 					o.Fail("", fmt.Sprintf("XHeader+SkipX advances to %d, SkipX to %d on %x", ho, so, msg))
+				}
+			}
+			// Where X() succeeds, SkipX() succeeds too (same position is checked below) and the
+			// parser stays inside the message.
+			if ep == nil {
+				if es != nil {
+					o.Fail("", fmt.Sprintf("X succeeds (offset %d) but SkipX fails (%v) on the same record of %x", dm.VerifParserOff(&pp), es, msg))
+				}
+				if po := dm.VerifParserOff(&pp); po > len(msg) {
+					o.Fail("", fmt.Sprintf("X moved the parser to %d, past the end (%d) of %x", po, len(msg), msg))
+				}
+			}
+			// A call for another section fails (ErrNotStarted / ErrSectionDone) and must leave the
+			// parser alone: XHeader(), a wrong-section header call, then the typed XResource() must
+			// give what X() gives.
+			if eh == nil && ep == nil {
+				pw := p
+				if h, err := a.header(&pw); err == nil {
+					for _, other := range apis {
+						other.header(&pw) // same section: re-parses the header, harmless; others: must fail and change nothing
+					}
+					body, err2 := typedBody(&pw, h)
+					pp2 := p
+					r2, _ := a.parse(&pp2)
+					var s1, s2 strings.Builder
+					if err2 == nil {
+						dumpResources2(&s1, dm.Resource{Header: h, Body: body})
+					}
+					dumpResources2(&s2, r2)
+					if err2 != nil || s1.String() != s2.String() || dm.VerifParserOff(&pw) != dm.VerifParserOff(&pp2) {
+						o.Fail("", fmt.Sprintf("after a failed header call for another section the typed method decodes [%s] (err %v, offset %d), X() gives [%s] (offset %d) on %x", s1.String(), err2, dm.VerifParserOff(&pw), s2.String(), dm.VerifParserOff(&pp2), msg))
+					}
 				}
 			}
 			if ep == dm.ErrSectionDone {
@@ -1321,7 +1378,7 @@ func exec(ops []string, o *vu.Out) {
 				}
 			}
 		case "walk":
-			if len(t) == 3 && strings.Trim(t[2], "pshk") == "" || len(t) == 3 && t[2] == "-" {
+			if len(t) == 3 && strings.Trim(t[2], "pshkw") == "" || len(t) == 3 && t[2] == "-" {
 				if b, ok := vu.ParseHex(t[1]); ok {
 					res = execWalk(b, t[2], o)
 				}
